@@ -19,7 +19,7 @@ def run_extract_lex(ctx, modules=("Vore.Model.Lexer",), rebuild=True):
     with open(os.path.join(C.WORK, "extractlex.lock"), "w") as lock:
         fcntl.flock(lock, fcntl.LOCK_EX)
         exe = os.path.join(C.BIN, "extractlex")
-        rc, o = C.sh(["go", "build", "-o", exe, "./cmd/extractlex"], cwd=os.path.join(C.VERIF, "harness"), env=C.GOENV,
+        rc, o = C.sh(["go", "build"] + C.go_mod_args() + ["-o", exe, "./cmd/extractlex"], cwd=os.path.join(C.VERIF, "harness"), env=C.GOENV,
                      timeout=600)
         ctx.log.append({"step": "go build extractlex", "rc": rc, "out": o[-1000:]})
         if rc != 0:
